@@ -27,6 +27,8 @@ type c12Case struct {
 	Catalogue  int          `json:"catalogue"` // -1 none, else faults.BundleKind
 	Obligatory []string     `json:"obligatory,omitempty"`
 	Faults     []writeFault `json:"faults"`
+	API        string       `json:"api,omitempty"`   // "" = Renderer.Execute with $ij and catalogue, "render" = Tofu.Render
+	Shape      string       `json:"shape,omitempty"` // optional interfaces of the writer: "" | flush-nil | flush-err | stringwriter
 }
 
 func collectTexts(n ast.Node, set map[string]bool) {
@@ -98,7 +100,7 @@ func c12Run(cc *sut.Compiled, cs *c12Case, f writeFault, ref *faults.Writer, ref
 		w.Capacity = f.K
 	}
 	e := cs.Entry
-	err, esc := cc.Render(w, e.Template, cs.Case.Data[e.Data].Map(), cs.Case.IJ[e.IJ].Map(), catalogue(cc, cs.Catalogue))
+	err, esc := c12Render(cc, cs, w)
 	kind := "none"
 	if w.Failed > 0 && w.FirstFailCall-1 < len(kinds) {
 		kind = kinds[w.FirstFailCall-1]
@@ -123,15 +125,33 @@ func c12Run(cc *sut.Compiled, cs *c12Case, f writeFault, ref *faults.Writer, ref
 				e.Template, w.FirstFailCall, trunc(string(w.Accepted[:upto]), 80), trunc(string(ref.Accepted), 80))), w, kind
 		}
 	} else {
-		// no call failed: the run must equal the fault-free run (machinery sanity, not the property)
+		// no call failed and still the run differs from the fault-free run: rendering depends on what
+		// was rendered before (an earlier faulted run left something behind).  That is C08's subject,
+		// not a statement about failing writers.
 		if !bytes.Equal(w.Accepted, ref.Accepted) || (err == nil) != (refErr == nil) {
-			return mk("machinery", "a run in which no write failed differs from the fault-free run"), w, kind
+			return mk("history", "a run in which no write failed differs from the fault-free run"), w, kind
 		}
 	}
 	if err == nil && !bytes.Equal(w.Accepted, ref.Accepted) {
 		return mk("nil-but-incomplete", fmt.Sprintf("template %s: Render returned nil although the writer accepted %d of %d bytes", e.Template, len(w.Accepted), len(ref.Accepted))), w, kind
 	}
 	return nil, w, kind
+}
+
+// c12Render renders the case's entry into w dressed in the case's writer shape, through the
+// case's entry point.
+func c12Render(cc *sut.Compiled, cs *c12Case, w *faults.Writer) (err error, esc *sut.Escape) {
+	e := cs.Entry
+	out := faults.Shaped(w, cs.Shape)
+	if cs.API == "render" {
+		defer func() {
+			if r := recover(); r != nil {
+				esc = &sut.Escape{Value: fmt.Sprint(r), Site: "Tofu.Render"}
+			}
+		}()
+		return cc.Tofu.Render(out, e.Template, cs.Case.Data[e.Data].Map()), nil
+	}
+	return cc.Render(out, e.Template, cs.Case.Data[e.Data].Map(), cs.Case.IJ[e.IJ].Map(), catalogue(cc, cs.Catalogue))
 }
 
 // c12Isolated re-executes one fault with the reference and the faulted render each being the
@@ -148,7 +168,8 @@ func c12Isolated(cs *c12Case, f writeFault) (*wk.Failure, error) {
 	}
 	e := cs.Entry
 	ref := faults.NewWriter()
-	refErr, esc := cc1.Render(ref, e.Template, cs.Case.Data[e.Data].Map(), cs.Case.IJ[e.IJ].Map(), catalogue(cc1, cs.Catalogue))
+	refErr, esc := c12Render(cc1, cs, ref)
+	_ = e
 	if esc != nil {
 		return nil, fmt.Errorf("fault-free render panics (C06's subject)")
 	}
@@ -209,6 +230,14 @@ func C12(c *wk.Ctx) {
 			if r.Intn(2) == 0 {
 				cs.Catalogue = []int{0, 1, 2, faults.KindPO}[r.Intn(4)]
 			}
+			// swarm: the entry point (Renderer.Execute with $ij and catalogue, or Tofu.Render) and the
+			// optional interfaces the writer has besides Write
+			if r.Intn(3) == 0 {
+				cs.API, cs.Catalogue = "render", -1
+			}
+			cs.Shape = []string{"", "", "flush-nil", "flush-err", "stringwriter"}[r.Intn(5)]
+			u.Counters["api_"+map[string]string{"": "execute", "render": "render"}[cs.API]]++
+			u.Counters["writer_shape_"+map[string]string{"": "plain"}[cs.Shape]+cs.Shape]++
 			if r.Intn(4) == 0 {
 				cs.Obligatory = []string{"vbang"}
 			}
@@ -235,7 +264,7 @@ func C12(c *wk.Ctx) {
 			for _, e := range entries {
 				cs.Entry = e
 				ref := faults.NewWriter()
-				refErr, esc := cc.Render(ref, e.Template, gc.Data[e.Data].Map(), gc.IJ[e.IJ].Map(), catalogue(cc, cs.Catalogue))
+				refErr, esc := c12Render(cc, cs, ref)
 				u.Evals++
 				if esc != nil {
 					u.Counters["fault_free_panics_left_to_C06"]++
@@ -293,6 +322,10 @@ func C12(c *wk.Ctx) {
 				for _, f := range fs {
 					fl, w, kind := c12Run(cc, cs, f, ref, refErr, kinds)
 					u.Evals++
+					if fl != nil && fl.Class == "history" {
+						u.Counters["fault_free_rerun_differs_history_dependence_left_to_C08"]++
+						fl = nil
+					}
 					if fl != nil {
 						// confirm on freshly compiled bundles before reporting
 						u.Counters["candidates_reexecuted_in_isolation"]++
@@ -302,8 +335,8 @@ func C12(c *wk.Ctx) {
 							u.Trouble = "isolated re-execution failed: " + err.Error()
 						case iso == nil:
 							u.Counters["candidate_not_confirmed_in_isolation_history_dependence_left_to_C08"]++
-						case iso.Class == "machinery":
-							u.Trouble = iso.Detail
+						case iso.Class == "history":
+							u.Counters["fault_free_rerun_differs_history_dependence_left_to_C08"]++
 						default:
 							u.AddFail(iso)
 						}
